@@ -201,6 +201,7 @@ def wake1(ctx: Ctx, chk) -> None:
             ok = False
             where = ""
             for f in tables.chain_defs(ctx, cal, V):
+                f = ctx.inl(f, lambda h: not h.name.startswith("handle_") and h.fq not in flush_fqs)  # bookkeeping helpers written out
                 calls = [x for x in ctx.own_nodes(f) if isinstance(x, ast.Call) and any(fq.endswith("." + norm(x.func).rsplit(".", 1)[-1]) for fq in flush_fqs)]
                 if not calls:
                     continue
